@@ -123,14 +123,15 @@ def maf(dim=3, cond=None, width=3, depth=1):
     return Spec(f"MaskedAutoregressive(dim={dim},cond={cond},width={width},depth={depth})", b, unwrapped=False, tags=("staged",))
 
 
-def bnaf(dim=2, depth=1, block=1, cond=None):
+def bnaf(dim=2, depth=1, block=1, cond=None, concrete=False, act=None):
     """BlockAutoregressiveNetwork, unwrapped: block-lower-triangular weights whose block-diagonal entries are positive (the invariant proved
     for the wrappers in C09/C11); the numerical inverse is C10's subject (has_inverse=False here)"""
     import warnings
     from flowjax import masks
     with warnings.catch_warnings():
         warnings.simplefilter("ignore")
-        b = fb.BlockAutoregressiveNetwork(jr.PRNGKey(12), dim=dim, cond_dim=cond, depth=depth, block_dim=block)
+        kw = {} if act is None else dict(activation={"tanh": fb.Tanh(), "softplus": fb.SoftPlus()}[act])
+        b = fb.BlockAutoregressiveNetwork(jr.PRNGKey(12), dim=dim, cond_dim=cond, depth=depth, block_dim=block, **kw)
     shapes = [(block, 1)] + [(block, block)] * (depth - 1) + [(1, block)] if depth > 0 else [(1, 1)]
 
     def masks_of(i):
@@ -156,8 +157,9 @@ def bnaf(dim=2, depth=1, block=1, cond=None):
                 out += [arr[idx] > 0 for idx in np.ndindex(arr.shape) if dg[idx]]
                 k += 1
         return out
-    return Spec(f"BlockAutoregressiveNetwork(dim={dim},depth={depth},block_dim={block},cond={cond})", b, inv=inv, sym_override=override, has_inverse=False,
-                note="unwrapped weights: zero above the block diagonal, positive on it (C09/C11); inverse is numerical (C10)")
+    return Spec(f"BlockAutoregressiveNetwork(dim={dim},depth={depth},block_dim={block},cond={cond}{',activation=' + act if act else ''}{',instance weights' if concrete else ''})", b, inv=inv, sym_override=override, has_inverse=False,
+                tags=(("concreteP",) if concrete else ()),
+                note="unwrapped weights: zero above the block diagonal, positive on it (C09/C11); inverse is numerical (C10)" + ("; weights fixed to the instance's values, x symbolic" if concrete else ""))
 
 
 def flow_bij(kind, invert, cond=None, dim=2, layers=2):
@@ -184,6 +186,8 @@ REG = {
     "coupling3": lambda: coupling(3), "coupling2c": lambda: coupling(2, 1), "coupling3d2": lambda: coupling(3, None, 2, 2), "coupling2rqs": lambda: coupling(2, None, 2, 1, True),
     "maf3": lambda: maf(3), "maf2c": lambda: maf(2, 1, 2, 1), "maf3d0": lambda: maf(3, None, 3, 0),
     "bnaf2": lambda: bnaf(2, 1, 1), "bnaf2b2": lambda: bnaf(2, 1, 2), "bnaf2d0": lambda: bnaf(2, 0, 1), "bnaf2c": lambda: bnaf(2, 1, 1, 1), "bnaf3": lambda: bnaf(3, 1, 1), "bnaf2d2": lambda: bnaf(2, 2, 1),
+    "bnaf2d2b2_tanh_w": lambda: bnaf(2, 2, 2, None, True, "tanh"), "bnaf2d2b2_tanh": lambda: bnaf(2, 2, 2, None, False, "tanh"), "bnaf2d1b2_tanh": lambda: bnaf(2, 1, 2, None, False, "tanh"),
+    "bnaf2d2b2_w": lambda: bnaf(2, 2, 2, None, True), "bnaf3d2b2_w": lambda: bnaf(3, 2, 2, None, True), "bnaf2d1b2_w": lambda: bnaf(2, 1, 2, None, True), "bnaf2cd2b2_w": lambda: bnaf(2, 2, 2, 1, True),
     "cflow_inv": lambda: flow_bij("coupling", True), "cflow_fwd": lambda: flow_bij("coupling", False), "cflow_inv_c": lambda: flow_bij("coupling", True, 1),
     "mflow_inv": lambda: flow_bij("maf", True), "mflow_fwd": lambda: flow_bij("maf", False),
     "pflow_inv": lambda: flow_bij("planar", True), "pflow_fwd": lambda: flow_bij("planar", False),
